@@ -326,7 +326,23 @@ func runPGPCase(c sigCase, t pgpText) {
 		return
 	}
 	run.Distinct(c.String())
-	cls := pgpFlagClass(c) + ":" + t.ID
+	// key class: signature mode (armor is only an encoding) + whether the text
+	// differs from its canonical <CR><LF> form
+	mode := "detached"
+	switch {
+	case c.Flags["clearsign"] == "true":
+		mode = "clearsign"
+	case c.Flags["inline"] == "true":
+		mode = "inline"
+	}
+	if c.Flags["textmode"] == "true" {
+		mode += "+textmode"
+	}
+	canon := strings.ReplaceAll(strings.ReplaceAll(t.Text, "\r\n", "\n"), "\n", "\r\n")
+	cls := mode + ":text-already-in-crlf-form"
+	if canon != t.Text {
+		cls = mode + ":text-not-in-crlf-form"
+	}
 	var ok bool
 	var plain []byte
 	var status string
@@ -453,7 +469,7 @@ func runDebCase(c sigCase, input []byte, secondRole string) {
 		okb := len(jlist(s, "problems")) == 0
 		oracle(c.Fmt, "python: md5/sha1/size lines of the signature block recomputed", okb)
 		if !okb {
-			violation("deb:files-lines-differ", fmt.Sprintf("%s: member %s: listed %v, recomputed %v", c, jstr(s, "member"), s["listed"], s["want"]), c.replay(nil))
+			violation("deb:signature-block:"+jlist(s, "problems")[0].(string), fmt.Sprintf("%s: member %s: listed %v, members %v", c, jstr(s, "member"), s["listed"], s["want"]), c.replay(nil))
 		}
 		if i < len(roles) {
 			if jstr(s, "member") != "_gpg"+roles[i] {
